@@ -87,7 +87,8 @@ ISMANY = "(A() in cls._tx_attrs and " + many("cls._tx_attrs[A()].mult") + ")"
 IN_S = "(A() in oc_branch_set)"
 # every attribute is registered under its own name (distinct names are distinct MetaAttr objects) and carries
 # one of the four multiplicities
-KEYED = ("forall_val(lambda k: implies(k in cls._tx_attrs, is_ref(cls._tx_attrs[k]) and cls._tx_attrs[k].name == k"
+KEYED = ("forall_val(lambda k: implies(k in cls._tx_attrs, is_ref(cls._tx_attrs[k])"
+         " and cls(cls._tx_attrs[k]) == MetaAttr and cls._tx_attrs[k] != MetaAttr and cls._tx_attrs[k].name == k"
          " and " + IS_MULT.format(m="cls._tx_attrs[k].mult") + "))")
 
 MODS = ["dict(oc_branch_set)", "ATTR:mult"]
@@ -99,19 +100,64 @@ OR_ = "(" + is_asg("rule") + " and " + many("mult") + ")"
 SEQ_I = f"sat2({O1} + csum(rule, _i, mult, root_rule))"
 CMAX_I = "cmax(rule, _i, mult, root_rule)"
 
-Schema("RuleNode", bases=("ParsingExpression",), fields={"_attr_name": "any"})
+TGT = "textx/lang.py::TextXVisitor.visit_textx_rule._update_attr_multiplicities"
+CAPT = {"cls": "obj", "root_rule": "obj", "rule_name": "str", "self": "obj", "node": "obj"}
+OWN_REGION = "if:rule.rule_name.startswith('__asgn')"
+POS = Ext("pos_to_linecol", pure=True, raises=None, returns="tuple")
+
+EFF_REGION = "if:isinstance(rule, OneOrMore)"
+# the multiplicity in force at and below this node (the statement `if isinstance(rule, OneOrMore): ... elif ...`)
+Unit(
+    "lang.update_attr_multiplicities.multiplicity-in-force",
+    target=TGT,
+    region=EFF_REGION,
+    props=["C02"],
+    params={"rule": "obj:ParsingExpression", "mult": "str"},
+    captured=CAPT,
+    requires=[IS_MULT.format(m="mult")],
+    modifies=[],
+    preserves=READS,
+    ensures=[("C02-repetitions-make-everything-below-many-valued", "final_mult == eff(rule, mult)"),
+             ("still-a-multiplicity", IS_MULT.format(m="final_mult"))],
+    raises=None,
+    canary="final_mult == '1'",
+)
+
+# the node's own assignment (the statement `if rule.rule_name.startswith("__asgn"):`); `mult` is the multiplicity
+# in force at this node (already updated for OneOrMore / ZeroOrMore)
+Unit(
+    "lang.update_attr_multiplicities.own-assignment",
+    target=TGT,
+    region=OWN_REGION,
+    props=["C02"],
+    params={"rule": "obj:ParsingExpression", "oc_branch_set": "set", "mult": "str"},
+    captured=CAPT,
+    requires=[("attributes-registered-under-their-own-name", KEYED), IS_MULT.format(m="mult"),
+              "cls._tx_attrs != oc_branch_set"],
+    calls={"mult_lt": MULT_LT, "self.grammar_parser.pos_to_linecol": POS},
+    modifies=MODS,
+    preserves=KEEP[:-1],
+    ensures=[
+        ("C02-a-single-assignment-is-recorded-in-the-seen-set", f"{IN_S} == (old({IN_S}) or {O1} == 1)"),
+        ("C02-many-valued-in-a-repetition-or-when-seen-before",
+         f"{ISMANY} == (old({ISMANY}) or {OR_} or ({O1} == 1 and old({IN_S})))"),
+        ("attributes-registered-under-their-own-name", KEYED),
+    ],
+    raises={"TextXSemanticError": []},
+    canary=f"{ISMANY}",
+)
 
 Unit(
     "lang.update_attr_multiplicities",
-    target="textx/lang.py::TextXVisitor.visit_textx_rule._update_attr_multiplicities",
+    target=TGT,
     props=["C02"],
     params={"rule": "obj:ParsingExpression", "oc_branch_set": "set", "mult": "str"},
-    captured={"cls": "obj", "root_rule": "obj", "rule_name": "str", "self": "obj", "node": "obj"},
+    captured=CAPT,
     requires=[("attributes-registered-under-their-own-name", KEYED), IS_MULT.format(m="mult"),
               "cls._tx_attrs != oc_branch_set"],
-    calls={"_update_attr_multiplicities": "lang.update_attr_multiplicities",
-           "mult_lt": MULT_LT,
-           "self.grammar_parser.pos_to_linecol": Ext("pos_to_linecol", pure=True, raises=None, returns="tuple")},
+    calls={"_update_attr_multiplicities": "lang.update_attr_multiplicities"},
+    regions={OWN_REGION: "lang.update_attr_multiplicities.own-assignment",
+             EFF_REGION: "lang.update_attr_multiplicities.multiplicity-in-force"},
     modifies=MODS,
     preserves=READS + ["name", "_tx_attrs"],
     loops={
@@ -167,3 +213,184 @@ def mult_lt_fin(tier, seed):
                                           "result": "refuted", "text": text, "where": "fin", "path": [],
                                           "model": {"failure": text}, "native": True, "time": 0, "reason": ""})
     return res
+
+
+# --------------------------------------------------------------------------
+# Bounded battery (never counted as proved): the statement itself, read natively.  Small rule bodies over the
+# attributes a, b are enumerated; every assignment occurrence gets its own keyword, so a sentence of the
+# expression is parsed the way it was generated.  The oracle does not look at textX's code: the sentences of the
+# expression (repetitions unrolled 0..2 times) say how many values one object can collect and in which order.
+# --------------------------------------------------------------------------
+def _c02_exprs(depth3):
+    leaf = [("asg", "a", "="), ("asg", "b", "=")]
+    e0 = leaf + [("asg", "a", "+=")]
+    e1 = list(e0)
+    for x in leaf:
+        e1 += [("opt", x), ("star", x), ("plus", x)]
+    for x in leaf:
+        for y in leaf:
+            e1 += [("seq", [x, y]), ("alt", [x, y])]
+    out = list(e1)
+    for x in e1:
+        for y in e1:
+            out += [("seq", [x, y]), ("alt", [x, y])]
+    for x in leaf:
+        for y in leaf:
+            for z in leaf:
+                for w in leaf:
+                    out.append(("seq", [x, ("alt", [y, z]), w]))
+                    out.append(("seq", [("alt", [x, y]), ("alt", [z, w])]))
+                out.append(("seq", [("opt", ("alt", [x, y])), z]))
+                out.append(("seq", [x, ("star", ("alt", [y, z]))]))
+    if depth3:
+        for x in e1:
+            for y in leaf:
+                for z in leaf:
+                    out.append(("seq", [y, ("alt", [x, z]), y]))
+                    out.append(("alt", [("seq", [x, y]), ("seq", [z, x])]))
+    return out
+
+
+def _c02_text(e, counter):
+    k = e[0]
+    if k == "asg":
+        counter[0] += 1
+        return f"'k{counter[0]}' {e[1]}{e[2]}INT"
+    if k in ("seq", "alt"):
+        parts = [_c02_text(x, counter) for x in e[1]]
+        return "(" + (" | " if k == "alt" else " ").join(parts) + ")"
+    return "(" + _c02_text(e[1], counter) + ")" + {"opt": "?", "star": "*", "plus": "+"}[k]
+
+
+def _c02_sentences(e, counter):
+    """list of sentences; a sentence is a list of (keyword, attribute)"""
+    k = e[0]
+    if k == "asg":
+        counter[0] += 1
+        one = [(f"k{counter[0]}", e[1])]
+        # `+=` matches one or more values after its keyword
+        return [one, one + [(None, e[1])]] if e[2] == "+=" else [one]
+    if k == "seq":
+        acc = [[]]
+        for x in e[1]:
+            s = _c02_sentences(x, counter)
+            acc = [p + q for p in acc for q in s][:400]
+        return acc
+    if k == "alt":
+        out = []
+        for x in e[1]:
+            out += _c02_sentences(x, counter)
+        return out
+    s = _c02_sentences(e[1], counter)
+    twice = [p + q for p in s for q in s][:100]
+    return {"opt": [[]] + s, "star": [[]] + s + twice, "plus": s + twice}[k]
+
+
+def _c02_nullable(e):
+    k = e[0]
+    if k == "asg":
+        return False
+    if k == "seq":
+        return all(_c02_nullable(x) for x in e[1])
+    if k == "alt":
+        return any(_c02_nullable(x) for x in e[1])
+    return k in ("opt", "star") or _c02_nullable(e[1])
+
+
+def _c02_peg_shadowed(e):
+    """an ordered choice with an alternative that matches the empty input hides its later alternatives (PEG):
+    the sentences of the expression would no longer be the inputs the grammar accepts"""
+    k = e[0]
+    if k == "asg":
+        return False
+    if k == "alt":
+        return any(_c02_nullable(x) or _c02_peg_shadowed(x) for x in e[1])
+    if k == "seq":
+        return any(_c02_peg_shadowed(x) for x in e[1])
+    return _c02_peg_shadowed(e[1])
+
+
+def _c02_battery(tier, seed, limit=None):
+    import random
+
+    from textx import metamodel_from_str
+
+    rnd = random.Random(1000 + seed)
+    exprs = [e for e in _c02_exprs(tier == "thorough") if not _c02_peg_shadowed(e)]
+    if tier != "thorough":
+        fixed = [e for e in exprs if e[0] == "seq" and len(e[1]) == 3][:48]
+        rest = [e for e in exprs if e not in fixed]
+        exprs = fixed + rnd.sample(rest, min(len(rest), limit or 260))
+    bad = []
+    n_g = n_s = 0
+    for e in exprs:
+        body = _c02_text(e, [0])
+        grammar = f"Model: {body};"
+        sents = [s for s in _c02_sentences(e, [0]) if s]
+        n_g += 1
+        try:
+            mm = metamodel_from_str(grammar)
+        except Exception as ex:  # noqa: BLE001
+            bad.append(f"{grammar!r}: metamodel: {type(ex).__name__}: {ex}")
+            continue
+        attrs = mm["Model"]._tx_attrs
+        for a in ("a", "b"):
+            if a not in attrs:
+                continue
+            can_multi = any(sum(1 for _, x in s if x == a) >= 2 for s in sents)
+            is_list = attrs[a].mult in ("0..*", "1..*")
+            if can_multi != is_list:
+                bad.append(f"{grammar!r}: attribute {a} {'is' if is_list else 'is not'} a list but one object can "
+                           f"collect {'more than one value' if can_multi else 'at most one value'}")
+        if len(sents) > 12:
+            sents = rnd.sample(sents, 12)
+        for s in sents:
+            n_s += 1
+            text = " ".join(f"{kw} {i}" if kw else str(i) for i, (kw, _) in enumerate(s))
+            want = {}
+            for i, (_, a) in enumerate(s):
+                want.setdefault(a, []).append(i)
+            try:
+                m = mm.model_from_str(text)
+            except Exception as ex:  # noqa: BLE001
+                bad.append(f"{grammar!r} on {text!r}: {type(ex).__name__}: {ex}")
+                continue
+            for a in attrs:
+                got = getattr(m, a)
+                vals = want.get(a, [])
+                if isinstance(got, list):
+                    ok = got == vals
+                else:
+                    ok = len(vals) <= 1 and got == (vals[0] if vals else 0)
+                if not ok:
+                    bad.append(f"{grammar!r} on {text!r}: {a} == {got!r}, matched values in input order {vals!r}")
+    return n_g, n_s, bad
+
+
+@extra("C02")
+def assignment_battery(tier, seed):
+    n_g, n_s, bad = _c02_battery(tier, seed)
+    res = {"name": "lang.assignment-multiplicities.battery", "backend": "native run of the real parser (bounded stand-in)",
+           "obligations": 0, "discharged": 0, "bounded": True,
+           "bound": f"{n_g} generated rule bodies over 2 attributes (nesting depth <= {3 if tier == 'thorough' else 2}), "
+                    f"{n_s} sentences, repetitions unrolled 0..2 times",
+           "cases": n_g + n_s, "violations": [],
+           "detail": "list-ness against the sentences of the rule body; every matched value once and in input order; "
+                     "no error on a sentence of the rule body"}
+    if bad:
+        res["violations"].append({"unit": res["name"], "kind": "BOUNDED", "label": "values-once-in-order-and-list-iff-many",
+                                  "prop": "C02", "result": "refuted", "text": "; ".join(bad[:3]), "where": "battery",
+                                  "path": [], "model": {"failures": bad[:10], "count": len(bad)}, "native": True,
+                                  "time": 0, "reason": ""})
+    return res
+
+
+def _replay_c02(model, rec):
+    n_g, n_s, bad = _c02_battery("thorough", 0)
+    return bool(bad), "; ".join(bad[:3]) or f"all {n_g} rule bodies / {n_s} sentences as stated"
+
+
+from txvc.props import replay_for  # noqa: E402
+
+for _u in ("lang.assignment-multiplicities.battery", "lang.update_attr_multiplicities"):
+    replay_for(_u)(_replay_c02)
